@@ -25,6 +25,9 @@ def plan(tier, seed):
     specs.append({"name": "wide-parameters", "kind": "wide", "budget_s": 100 if tier == "quick" else 600})
     # values that are random in the library (PRF outputs, os.urandom draws) and values the caller chooses (keywords,
     # identifiers) forced to begin / end with byte patterns that content-sniffing code keys on (instrument.Steer)
+    for j in range(3):
+        specs.append({"name": f"dropped-index-generations-{j}", "kind": "generations", "schemes": gen.SCHEMES[j::3],
+                      "rounds": 1 if tier == "quick" else 8, "generations": 60, "budget_s": 120})
     specs.append({"name": "real-server-many-services", "kind": "many_services", "services": 27 if tier == "quick" else 150,
                   "budget_s": 200})
     for j in range(3 if tier == "quick" else 6):
@@ -316,6 +319,13 @@ async def many_services(spec, acc, ctx):
 
 
 def run_shard(spec, acc, ctx):
+    if spec.get("kind") == "generations":
+        # a long-lived client scheme object whose keys and indexes come and go (half of the indexes are restored from
+        # their serialized form): tokens generated for the current key must match the current index
+        from props import _search_engine as eng
+        eng.run_generations(spec, acc, ctx, "both", sig_prefix="pipeline-")
+        acc.count("cases", acc.counters.get("generations.indexes", 0))
+        return
     if spec.get("kind") == "many_services":
         import asyncio
         asyncio.run(many_services(spec, acc, ctx))
